@@ -16,7 +16,7 @@ ASSUMPTIONS = ['expected text is derived from emmet/snippets/css.py split on "|"
                'both sides are normalised: tabstops ${n:ph} -> ph, blank runs collapsed, 1.0 == 1, colours compared by value',
                'under @@section a property key may give nothing or a raw body (fuzzy match), under @@property the converse; only "must not give its own line" is judged',
                'value-scope keywords are checked for properties with a single built-in snippet',
-               'a per-syntax `cache` dict is used for 39 of 40 calls (snippet conversion costs 6 ms)']
+               'a per-syntax `cache` dict is used for 39 of 40 calls (snippet conversion costs 6 ms); every second user table goes through one cache dict shared by all tables and scopes of the shard']
 FLOORS = {'quick': {'key': 2700, 'keyword': 1500, 'scope': 5000, 'user-table': 1500}, 'thorough': {'key': 2700, 'keyword': 1500, 'scope': 5000, 'user-table': 40000}}
 REQUIRED_MONITORS = ['oracle:key-reaches-snippet', 'oracle:keyword', 'oracle:scope', 'oracle:user-table']
 SYNTAXES = ['css', 'scss', 'less', 'sss', 'sass', 'stylus']
@@ -256,6 +256,7 @@ def run_shard(desc, ctx):
         else:
             rng = ctx.rng
             builtin = sorted(tbl)
+            shared = 'one cache for every table of this shard'
             for t in range(desc['n']):
                 ut = user_table(rng, builtin)
                 syntax = rng.choice(SYNTAXES)
@@ -264,7 +265,10 @@ def run_shard(desc, ctx):
                     ctx.mon('oracle:user-table')
                     kind, exp, prop = expected_line(value, syntax)
                     case = {'kind': 'user', 'table': ut, 'key': key, 'syntax': syntax}
-                    r = mon.run(key, syntax, None, ut, cache_key=repr(sorted(ut.items())))
+                    # odd tables go through ONE cache dict shared by all tables and scopes of the shard (a cache never changes a result)
+                    ck = shared if t % 2 else repr(sorted(ut.items()))
+                    case['shared_cache'] = bool(t % 2)
+                    r = mon.run(key, syntax, None, ut, cache_key=ck)
                     if r[0] == 'exc':
                         ctx.violation('exception', case, {'exc': list(core.exc_site(r[1])), 'msg': str(r[1])[:100]})
                         continue
@@ -275,14 +279,19 @@ def run_shard(desc, ctx):
                         ctx.seen((repr(sorted(ut.items())), key, syntax))
                         ctx.state('user', '%s %s' % (kind, 'override' if key in tbl else 'new'))
                     # scope restriction on user snippets too
-                    if t % 4 == 0:
+                    if t % 4 < 2:
                         ctx.mon('oracle:scope')
                         sc = '@@section' if kind == 'property' else '@@property'
-                        r2 = mon.run(key, syntax, {'name': sc}, ut, cache_key=repr(sorted(ut.items())))
+                        r2 = mon.run(key, syntax, {'name': sc}, ut, cache_key=ck)
                         if r2[0] == 'ok' and norm(r2[1]) == exp and exp:
                             ctx.violation('scope-lets-wrong-kind-through', dict(case, scope=sc), {'actual': norm(r2[1])})
+                        # and the permitted kind stays reachable under its scope
+                        sc2 = '@@property' if kind == 'property' else '@@section'
+                        r3 = mon.run(key, syntax, {'name': sc2}, ut, cache_key=ck)
+                        if r3[0] == 'ok' and norm(r3[1]) != exp:
+                            ctx.violation('user-snippet-unreachable-under-its-scope', dict(case, scope=sc2), {'expected': exp, 'actual': norm(r3[1])})
                 # the snippet cache of this table is not needed any more
-                mon.caches = {k: v for k, v in mon.caches.items() if k[1] is None}
+                mon.caches = {k: v for k, v in mon.caches.items() if k[1] is None or k[1] == shared}
     finally:
         pr.uninstall()
     for k, v in pr.reach().items():
@@ -316,7 +325,7 @@ def _gradient(rec):
     c = rec['case']
     if c.get('key') != 'lg':
         return False
-    if rec['kind'] == 'user-snippet-unreachable':
+    if rec['kind'] in ('user-snippet-unreachable', 'user-snippet-unreachable-under-its-scope'):
         return 'linear-gradient(' in str(rec['detail'].get('actual'))
     if rec['kind'] in ('scope-section-lets-property-through', 'scope-lets-wrong-kind-through'):
         return 'linear-gradient(' in str(rec['detail'].get('actual'))
